@@ -74,12 +74,18 @@ Qed.
 
 (* ---------- Scrollable.render ---------- *)
 
+(* the state a render leaves behind when everything fits: position 0, nothing pending *)
+Definition fit_state (st : sstate) (ob : cobs) : sstate :=
+  SState 0 ANone (match c_cursor ob with Some _ => true | None => c_selectable ob end)
+         (old_cursor st) (rows_cached st).
+
 Lemma s_render_fits st maxcol maxrow ob :
   fits ob maxcol maxrow = true ->
   s_render st maxcol maxrow ob =
-    Ok (st, View 0 (c_rows ob) (Z.max 0 (maxrow - c_rows ob)) (Z.max 0 (maxcol - c_cols ob)) 0 (c_cursor ob)).
+    Ok (fit_state st ob,
+        View 0 (c_rows ob) (Z.max 0 (maxrow - c_rows ob)) (Z.max 0 (maxcol - c_cols ob)) 0 (c_cursor ob)).
 Proof.
-  unfold fits, s_render. intros H. rewrite H.
+  unfold fits, s_render, fit_state. intros H. rewrite H.
   apply andb_true_iff in H. destruct H as [H1 H2].
   repeat f_equal.
   - destruct ((c_rows ob <=? maxrow) && (0 <? maxrow - c_rows ob)) eqn:?; lia.
@@ -136,16 +142,28 @@ Lemma s_render_total st maxcol maxrow ob :
     v_blank v = Z.max 0 (maxrow - c_rows ob) /\
     v_padr v = Z.max 0 (maxcol - c_cols ob) /\
     v_trimr v = Z.max 0 (c_cols ob - maxcol) /\
-    (fits ob maxcol maxrow = false -> trim_top st' = v_top v) /\
-    (fits ob maxcol maxrow = true -> st' = st).
+    trim_top st' = v_top v /\
+    action st' = ANone /\
+    rows_cached st' = rows_cached st /\
+    (fits ob maxcol maxrow = true -> st' = fit_state st ob).
 Proof.
   intros Hm Hob. destruct (fits ob maxcol maxrow) eqn:Hf.
   - rewrite (s_render_fits _ _ _ _ Hf). unfold fits in Hf. destruct Hob as (Hr & Hc & _).
-    eexists. eexists. split; [reflexivity|]. cbn [v_top v_shown v_blank v_padr v_trimr].
+    eexists. eexists. split; [reflexivity|]. cbn [v_top v_shown v_blank v_padr v_trimr fit_state trim_top action rows_cached].
     repeat split; try lia; try discriminate.
   - destruct (s_render_trims st maxcol maxrow ob Hm Hob Hf)
-      as (st' & v & E & R & _ & _ & T & S & B & P & Tr).
+      as (st' & v & E & R & A & C & T & S & B & P & Tr).
     exists st', v. split; [exact E|]. rewrite T. repeat split; try lia; try assumption; try discriminate.
+Qed.
+
+(* scroll_reports_p: after EVERY render the reported position is the p of the window shown, in range *)
+Lemma s_render_reports st maxcol maxrow ob st' v :
+  1 <= maxrow -> ob_ok ob -> s_render st maxcol maxrow ob = Ok (st', v) ->
+  trim_top st' = v_top v /\ 0 <= trim_top st' <= Z.max 0 (c_rows ob - maxrow) /\ action st' = ANone.
+Proof.
+  intros Hm Hob E.
+  destruct (s_render_total st maxcol maxrow ob Hm Hob) as (st2 & v2 & E2 & R & _ & _ & _ & _ & T & A & _).
+  rewrite E in E2. inversion E2; subst. rewrite T. repeat split; try lia; assumption.
 Qed.
 
 (* ---------- what the view record means, on the actual rows of the wrapped widget ---------- *)
@@ -183,20 +201,6 @@ Proof.
   - unfold view_rows. rewrite zlen_app, S, B. rewrite <- Hd, takez_min by lia.
     rewrite zlen_takez by lia. rewrite Hd. unfold zlen. rewrite repeat_length.
     destruct Hob as (Hr & _). lia.
-Qed.
-
-(* ---------- the reported position ---------- *)
-
-(* REFUTED in general: when everything fits, render returns before touching _trim_top, so the position
-   reported afterwards is whatever was stored (here: set_scrollpos(5) on one line of content) *)
-Lemma reports_p_counterexample :
-  exists st maxcol maxrow ob st' v,
-    1 <= maxrow /\ ob_ok ob /\ s_render st maxcol maxrow ob = Ok (st', v) /\
-    (trim_top st' <> v_top v \/ ~ (0 <= trim_top st' <= Z.max 0 (c_rows ob - maxrow))).
-Proof.
-  exists (s_set_scrollpos sinit 5), 4, 3, (CObs 4 1 None false).
-  eexists. eexists. split; [lia|]. split; [unfold ob_ok, cursor_ok; cbn; lia|].
-  split; [vm_compute; reflexivity|]. left. vm_compute. discriminate.
 Qed.
 
 (* ---------- keys and mouse events ---------- *)
@@ -261,7 +265,7 @@ Lemma handled_key_same_view st force cmd ko maxcol maxrow ob :
 Proof.
   intros Hf Hh Hc. unfold s_keypress. rewrite Hf, Hh. cbn [andb fst].
   destruct (fits ob maxcol maxrow) eqn:Hfit.
-  - rewrite !(s_render_fits _ _ _ _ Hfit). destruct (k_has_gcc ko); cbn [trim_top]; split; reflexivity.
+  - rewrite !(s_render_fits _ _ _ _ Hfit). destruct (k_has_gcc ko); cbn [trim_top fit_state]; split; reflexivity.
   - destruct (k_has_gcc ko); [|destruct (s_render st maxcol maxrow ob) as [[? ?]|]; auto].
     unfold fits in Hfit. unfold s_render. rewrite Hfit. cbn [trim_top action old_cursor rows_cached forward]. rewrite Hc.
     set (rows := c_rows ob + _).
@@ -281,7 +285,7 @@ Lemma s_render_stable st maxcol maxrow ob st' v :
   s_render st' maxcol maxrow ob = Ok (st', v).
 Proof.
   intros Hm Hob E. destruct (fits ob maxcol maxrow) eqn:Hf.
-  - rewrite (s_render_fits _ _ _ _ Hf) in E. inversion E; subst. apply s_render_fits; assumption.
+  - rewrite (s_render_fits _ _ _ _ Hf) in E. inversion E; subst. rewrite (s_render_fits _ _ _ _ Hf). reflexivity.
   - destruct Hob as (Hr & Hc & Hcur). unfold fits in Hf. unfold s_render in *. rewrite Hf in *.
     set (fill := if (c_rows ob <=? maxrow) && (0 <? maxrow - c_rows ob) then maxrow - c_rows ob else 0) in *.
     assert (Hcur' : cursor_ok (c_cursor ob) (c_rows ob + fill)).
